@@ -85,9 +85,20 @@ Definition sa_transfer_omega (eps2 omega : S) (bs : nat) (A : crs) (junk : vec) 
   end.
 Definition sa_transfer (eps2 relax c23 : S) (bs : nat) (A : crs) (junk : vec) : transfer :=
   sa_transfer_omega eps2 (sa_omega relax c23) bs A junk.
-(* Gershgorin estimate, one thread *)
+(* Gershgorin estimate spectral_radius<true>(A, 0), current code (/repo f082a42: [dia] is reset to
+   the identity for every row; the LAST stored diagonal entry of the row wins).  Modelled here for one
+   thread; coq/MatOps2.v (matops group) carried the pre-fix per-thread [dia] when this was written. *)
+Definition gersh_row_cur (ir : nat * row) : S :=
+  let sd := fold_left (fun (sd : S * S) e =>
+                         (fst sd + sabs (snd e), if Nat.eqb (fst e) (fst ir) then snd e else snd sd))
+                      (snd ir) (s0, s1) in
+  fst sd * sabs (sinv (snd sd)).
+Definition gersh_rho (A : crs) : S :=
+  let emax := fold_left (fun m ir => smax m (gersh_row_cur ir)) (indexed (rows A)) s0 in
+  let radius := smax s0 emax in
+  if sltb radius s0 then s1 + s1 else radius.
 Definition sa_transfer_gersh (eps2 relax c43 : S) (bs : nat) (A : crs) (junk : vec) : transfer :=
-  sa_transfer_omega eps2 (sa_omega_rho relax c43 (spectral_radius_gersh true [nrows A] A)) bs A junk.
+  sa_transfer_omega eps2 (sa_omega_rho relax c43 (gersh_rho A)) bs A junk.
 Definition sa_coarse (nt : nat) (A P R : crs) : crs := galerkin nt A P R.
 
 (* ---------------------------------------------------------------- Ruge-Stuben *)
@@ -241,10 +252,10 @@ Definition rs_interp_row (eps eps_trunc : S) (do_trunc : bool) (cf : list cfm) (
       if Nat.eqb c i then (v, (a_num, a_den), (b_num, b_den), (d_neg, d_pos)) else
       if sltb v s0 then
         (dia, (a_num + v, if strongC e then a_den + v else a_den), (b_num, b_den),
-         (if strongC e && do_trunc && sltb Amin v then d_neg + v else d_neg, d_pos))
+         (if strongC e && do_trunc && sle Amin v then d_neg + v else d_neg, d_pos))
       else
         (dia, (a_num, a_den), (b_num + v, if strongC e then b_den + v else b_den),
-         (d_neg, if strongC e && do_trunc && sltb v Amax then d_pos + v else d_pos)))
+         (d_neg, if strongC e && do_trunc && sle v Amax then d_pos + v else d_pos)))
     r (s0, (s0, s0), (s0, s0), (s0, s0)) in
   let '(dia, (a_num, a_den), (b_num, b_den), (d_neg, d_pos)) := acc in
   let cf_neg := if do_trunc && sltb eps (sabs (a_den - d_neg)) then sabs a_den / sabs (a_den - d_neg) else s1 in
@@ -365,25 +376,39 @@ Definition rs_row_applicable (A : crs) (Sv : flags) (cf : list cfm) (i : nat) : 
                     && negb (Nat.eqb (fst (fst e)) i)) r &&
   Nat.eqb (diag_count i (nth i (rows A) [])) 1 &&
   sltb s0 (rget (nth i (rows A) []) i).
-Definition rs_rowsum_ok (A : crs) (Sv : flags) (cf : list cfm) (P : crs) : bool :=
+(* with truncation the statement needs eps_trunc < 1 (the largest connection survives) *)
+Definition rs_rowsum_ok (do_trunc : bool) (eps_trunc : S) (A : crs) (Sv : flags) (cf : list cfm) (P : crs) : bool :=
+  (do_trunc && negb (sltb eps_trunc s1)) ||
   forallb (fun i => negb (rs_row_applicable A Sv cf i) || seqb (row_sum (nth i (rows P) [])) s1)
           (seq 0 (nrows A)).
 
 (* -- R = transpose P, storage order included *)
 Definition transpose_ok (P R : crs) : bool := crs_eqb R (transpose P) && Nat.eqb (nrows R) (ncols P).
 
-(* -- lifting: scalar aggregates of A versus pointwise aggregates of A (x) I_b *)
+(* -- lifting: pointwise coarsening of A (x) I_b versus the scalar coarsening.
+   The reduced matrix is by design the matrix of block NORMS, so the scalar problem the pointwise
+   aggregates are lifted from is mabs A (= A as far as strength of connection goes whenever the
+   diagonal is positive); the smoothing itself uses the values of A. *)
+Definition mabs (A : crs) : crs :=
+  mkCrs (ncols A) (map (map (fun e => (fst e, sabs (snd e)))) (rows A)).
+Definition kron_row (b k : nat) (r : row) : row := map (fun e => ((fst e * b + k)%nat, snd e)) r.
 Definition kron_id (b : nat) (A : crs) : crs :=
-  mkCrs (ncols A * b)
-        (flat_map (fun r => map (fun k => map (fun e => ((fst e * b + k)%nat, snd e)) r) (seq 0 b)) (rows A)).
+  mkCrs (ncols A * b) (flat_map (fun r => map (fun k => kron_row b k r) (seq 0 b)) (rows A)).
 Definition lifted_ids (b : nat) (id : list Z) : list Z := expand_ids b id.
 Definition lifted_flags (b : nat) (st : flags) : flags :=
   flat_map (fun fl => map (fun _ => fl) (seq 0 b)) st.
-(* the pointwise result a block-size-b coarsening of A (x) I_b should give *)
 Definition lifted_aggregates (b : nat) (a : aggregates) : aggregates :=
   match a with
   | AggOk c id st => AggOk (c * b) (lifted_ids b id) (lifted_flags b st)
   | x => x
+  end.
+(* what smoothed_aggregation on A (x) I_b with block_size b has to return *)
+Definition lifted_sa (eps2 omega : S) (b : nat) (A : crs) (junk : vec) : transfer S :=
+  match plain_aggregates eps2 (mabs A) junk with
+  | AggEmpty => TrEmpty
+  | AggPrecond => TrPrecond
+  | AggOk c id st =>
+    let P := kron_id b (sa_smooth omega A st (tentative_prolongation c id)) in TrOk P (transpose P)
   end.
 Definition aggregates_eqb (a1 a2 : aggregates) : bool :=
   match a1, a2 with
